@@ -232,7 +232,8 @@ EXTRA = {
     'C08': 'Also: the escape and close-encounter scans of the heartbeat range over the real particles only, compare in the right direction and set the matching status (R08.7); '
            'time and step comparisons of the catch-up loops, the exit test and the snapshot cadence are direction-normalised, and every catch-up loop clamps its last sub-step (R08.8).',
     'C09': 'Also: Simulationarchive.getSimulation sets the keep_unsynchronized switches before the first synchronising call in every branch (R09.7) and only on the integrator '
-           'whose safe_mode it examined, because the C init routines refuse keep_unsynchronized with safe_mode (R09.8).',
+           'whose safe_mode it examined, because the C init routines refuse keep_unsynchronized with safe_mode (R09.8); the scratch copy of the Jacobi state is allocated and filled under exactly the path '
+           'conditions under which it is restored and freed (R09.9).',
     'C10': 'Also: x/y/z triples of the reversible schemes (JANUS integer conversion included) are one formula per axis (R10.6); the SEI epicycle operator composed with itself under '
            'dt -> -dt is the identity as a rational map and has unit Jacobian (R10.7).',
     'C11': 'Also: the reported pericentre time inverts the accepted formula M = n (t - T) for bound and unbound orbits as a symbolic identity (R11.8); component triples of the orbit '
